@@ -42,9 +42,9 @@ Init == /\ saw = FALSE /\ maxID = 0 /\ cur = 0 /\ unacked = 1 /\ ga = "none" /\ 
 
 \* ms: "open" | "hcr" (half-closed remote), each also in a "...big" flavour for a stream whose request declared a content-length that the
 \* body cannot reach (kind clbig): the flavour changes nothing in the reactions, it keeps the histories apart in the state graph
-IsOpen(s) == ms[s] \in {"open", "openbig"}
-IsHcr(s) == ms[s] \in {"hcr", "hcrbig"}
-HcrOf(s) == IF ms[s] = "openbig" THEN "hcrbig" ELSE "hcr"
+IsOpen(s) == ms[s] \in {"open", "openbig", "opensmall"}
+IsHcr(s) == ms[s] \in {"hcr", "hcrbig", "hcrsmall"}
+HcrOf(s) == IF ms[s] = "openbig" THEN "hcrbig" ELSE IF ms[s] = "opensmall" THEN "hcrsmall" ELSE "hcr"
 State(s) == IF inMap[s] THEN (IF IsOpen(s) THEN "open" ELSE "hcr") ELSE IF s % 2 = 1 /\ s <= maxID THEN "closed" ELSE IF s % 2 = 0 THEN "idle" ELSE "idle"
 
 ConnErr(code) == /\ out' = (IF ga = "graceful" THEN <<>> ELSE <<<<"C", code>>>>) /\ ga' = "error"
@@ -94,7 +94,9 @@ HeadersComplete(s, es, kind) ==
        /\ maxID' = s /\ out' = <<<<"S", s, "PE">>>>
        /\ UNCHANGED <<saw, cur, unacked, ga, inMap, ms, trailer, handler, started>>
   ELSE /\ maxID' = s /\ cur' = cur + 1
-       /\ inMap' = [inMap EXCEPT ![s] = TRUE] /\ ms' = [ms EXCEPT ![s] = IF kind = "clbig" THEN (IF es THEN "hcrbig" ELSE "openbig") ELSE (IF es THEN "hcr" ELSE "open")]
+       /\ inMap' = [inMap EXCEPT ![s] = TRUE] /\ ms' = [ms EXCEPT ![s] = IF kind = "clbig" THEN (IF es THEN "hcrbig" ELSE "openbig")
+                                      ELSE IF kind = "clsmall" THEN (IF es THEN "hcrsmall" ELSE "opensmall")
+                                      ELSE (IF es THEN "hcr" ELSE "open")]
        /\ handler' = [handler EXCEPT ![s] = "running"] /\ started' = started \cup {s}
        /\ out' = <<<<"START", s>>>>
        /\ UNCHANGED <<saw, unacked, ga, trailer>>
@@ -114,6 +116,9 @@ Data(s, es) ==
   ELSE IF ~inMap[s] \/ ~IsOpen(s) \/ trailer[s] THEN
        /\ out' = <<<<"S", s, "SC">>>>
        /\ IF inMap[s] THEN CloseS(s) ELSE UNCHANGED <<inMap, ms, cur>>
+       /\ UNCHANGED <<saw, maxID, unacked, ga, trailer, handler, started>>
+  ELSE IF ms[s] = "opensmall" THEN       \* the request declared content-length 1, every DATA frame of the alphabet carries 3 octets
+       /\ out' = <<<<"S", s, "PE">>>> /\ CloseS(s)
        /\ UNCHANGED <<saw, maxID, unacked, ga, trailer, handler, started>>
   ELSE /\ ms' = [ms EXCEPT ![s] = IF es THEN HcrOf(s) ELSE @] /\ Nop
        /\ UNCHANGED <<saw, maxID, cur, unacked, ga, inMap, trailer, handler, started>>
@@ -157,6 +162,7 @@ Frame(type, s, es, eh, kind) ==
      \* a zero WINDOW_UPDATE increment is rejected by the frame parser, before the HEADERS/CONTINUATION order is looked at
      ELSE IF type = "WU" /\ kind = "zero" THEN WU(s, kind) /\ UNCHANGED <<hdr, pendingES>>
      \* frame-parser checks of PING and GOAWAY come first as well: size, then stream id
+     ELSE IF type = "SETTINGS" /\ kind = "badwin" THEN ConnErr("FC") /\ KeepAll      \* parseSettingsFrame: INITIAL_WINDOW_SIZE above 2^31-1
      ELSE IF type = "PING" /\ kind = "bad" THEN ConnErr("FS") /\ KeepAll
      ELSE IF type \in {"PING", "GOAWAY"} /\ s # 0 THEN ConnErr("PE") /\ KeepAll
      ELSE IF ~FrameOrderOK(type, s) THEN ConnErr("PE") /\ UNCHANGED <<saw, maxID, cur, unacked, hdr, inMap, ms, trailer, handler, started, pendingES>>
@@ -187,8 +193,8 @@ HandlerFinish(s) ==
 
 \* which (type, stream, flags, kind) combinations are frames of the alphabet
 InAlphabet(type, s, es, eh, kind) ==
-              /\ (type = "SETTINGS" => s = 0 /\ kind \in {"ok", "ack", "bad"} /\ es = FALSE /\ eh = FALSE)
-              /\ (type = "HEADERS" => kind \in {"ok", "malformed", "selfdep", "clbig"} /\ (kind # "ok" => eh))     \* defective blocks are single-frame blocks
+              /\ (type = "SETTINGS" => s = 0 /\ kind \in {"ok", "ack", "bad", "badwin"} /\ es = FALSE /\ eh = FALSE)
+              /\ (type = "HEADERS" => kind \in {"ok", "malformed", "selfdep", "clbig", "clsmall"} /\ (kind # "ok" => eh))     \* defective blocks are single-frame blocks
               \* clbig: a well-formed block that declares a content-length larger than any body this alphabet sends (DATA carries 3 octets):
               \* END_STREAM then comes "short" - the request body fails for the handler, the stream state machine is the same
               /\ (type = "CONT" => kind = "ok" /\ es = FALSE)      \* malformed blocks are exercised as single-frame blocks
@@ -201,7 +207,7 @@ InAlphabet(type, s, es, eh, kind) ==
 ClientFrame(type, s, es, eh, kind) == InAlphabet(type, s, es, eh, kind) /\ Frame(type, s, es, eh, kind)
 
 Next == \/ \E type \in {"SETTINGS", "HEADERS", "CONT", "DATA", "RST", "WU", "PRIORITY", "PUSH", "UNKNOWN", "PING", "GOAWAY"},
-              s \in Ids \cup {0}, es \in BOOLEAN, eh \in BOOLEAN, kind \in {"ok", "ack", "bad", "malformed", "selfdep", "clbig", "zero", "overflow"} :
+              s \in Ids \cup {0}, es \in BOOLEAN, eh \in BOOLEAN, kind \in {"ok", "ack", "bad", "badwin", "malformed", "selfdep", "clbig", "clsmall", "zero", "overflow"} :
               ClientFrame(type, s, es, eh, kind)
         \/ \E s \in Ids : HandlerFinish(s)
 Spec == Init /\ [][Next]_vars
